@@ -71,12 +71,17 @@ func (w *Weekly) Contains(t time.Time) (ok bool) {
 	wd := t.Weekday()
 	dr := w.days[wd]
 
-	// Calculate the offset of the day range.
+	// Calculate the offset of the day range from the wall-clock reading in the
+	// schedule's time zone.
 	//
-	// NOTE: Do not use [time.Truncate] since it requires UTC time zone.
-	y, m, d := t.Date()
-	day := time.Date(y, m, d, 0, 0, 0, 0, w.location)
-	offset := t.Sub(day)
+	// NOTE:  Do not use the time elapsed since the local midnight, since it
+	// differs from the wall-clock time of day on days with a UTC offset
+	// transition, such as the beginning and the end of daylight saving time.
+	hour, minute, sec := t.Clock()
+	offset := time.Duration(hour)*time.Hour +
+		time.Duration(minute)*time.Minute +
+		time.Duration(sec)*time.Second +
+		time.Duration(t.Nanosecond())
 
 	return dr.contains(offset)
 }
